@@ -470,6 +470,11 @@ func (c *HTTPClient) discover() error {
 			c.topology.Update(primary, secondaries...)
 			break
 		}
+		// whatever the failure was (doReq itself only marks an endpoint dead on
+		// connection errors and exhausted 5xx retries, not on a 4xx), this node did
+		// not answer the discovery: as in callAny, mark it dead so that the next
+		// round picks another one and the loop ends when none is left
+		e.MarkAsDead()
 	}
 
 	return nil
